@@ -135,8 +135,11 @@ def generate(run_index, seed, tier):
         k = kinds[nm]
         can_ref = nm not in referenced
         refs = g.subset(sorted(referenced), 0, 2) if can_ref and k != "ignored" and g.chance(0.6) else []
+        if refs and g.chance(0.2):
+            refs = [refs[0], refs[0]]          # the same reference twice in one template
         if k == "categorical":
-            keys = g.sample(["go", "stop", "left", "right", "hi", "lo"], g.randint(1, 3))
+            keys = g.sample(g.pick([["go", "stop", "left", "right", "hi", "lo"], ["go", "stop", "left", "right", "hi", "lo"],
+                                    ["1", "2", "10", "go"]]), g.randint(1, 3))
             ent = {}
             for key in keys:
                 top, pos = _tpl(g, refs if g.chance(0.8) else [])
@@ -168,11 +171,12 @@ def generate(run_index, seed, tier):
             if c == "onset":
                 row[c] = "%g" % t
             elif c == "HED":
-                row[c] = g.pick(["Hand", "(Foot, Black)", "n/a", "n/a", ""])
+                row[c] = g.pick(["Hand", "(Foot, Black)", "n/a", "n/a", "", " Hand", "Hand ", " (Foot, Black) ", " ", "  "])
             elif c == "extra":
                 row[c] = g.pick(["x", "y", "n/a"])
             elif kinds[c] == "categorical":
-                row[c] = g.pick(sorted(cols[c]["entries"]) * 2 + ["n/a", "n/a", "", "unknownkey"])
+                near = ["1.0", "02", "1e1", " go", "GO"] if any(k in cols[c]["entries"] for k in ("1", "2", "10")) else [" go", "GO"]
+                row[c] = g.pick(sorted(cols[c]["entries"]) * 2 + ["n/a", "n/a", "", "unknownkey", g.pick(near)])
             elif kinds[c] == "value":
                 row[c] = g.pick(["5", "abc", "17", "n/a", "n/a", ""])
             else:
@@ -183,6 +187,10 @@ def generate(run_index, seed, tier):
              "get_column_refs", "columns", "to_csv", "sidecar_column_data", "sidecar_json", "second_table_series_a"]
     for _ in range(g.randint(3, 12)):
         calls.append(g.pick(CALLS))
+    if has_hed_col and g.chance(0.15):
+        # a sidecar entry that is itself called HED (with category keys no cell uses): the HED column cell is still
+        # part of the row's annotation, verbatim
+        cols["HED"] = {"kind": "categorical", "entries": {"zz": ["Black"], "yy": ["White", ["Star"]]}, "shadow": True}
     sc = {"columns": cols, "order": order, "rows": rows, "calls": calls, "input": g.pick(["df", "df", "file"]),
           "used_refs": sorted(used), "ref_pos": ref_pos}
     return sc
@@ -262,7 +270,7 @@ def _sidecar_json(sc):
 def _col_text_tree(sc, nm, cell):
     """Own (un-spliced) annotation tree of a column for one cell, or None when the cell contributes nothing."""
     if nm == "HED":
-        if cell in ("n/a", ""):
+        if cell.strip() in ("n/a", ""):
             return None
         return vocab.parse(cell)
     col = sc["columns"][nm]
@@ -516,13 +524,24 @@ def _why_sig(sc, i):
     return "plain"
 
 
+def _ws_free(obj):
+    """Results compared ACROSS interpreters (hash-order independence) ignore insignificant white space."""
+    if isinstance(obj, str):
+        return "".join(obj.split())
+    if isinstance(obj, (list, tuple)):
+        return [_ws_free(x) for x in obj]
+    if isinstance(obj, dict):
+        return {k: _ws_free(v) for k, v in obj.items()}
+    return obj
+
+
 def _result(sc, violations, probes, trace, nontrivial):
     seen, uniq = set(), []
     for v in violations:
         if v["signature"] not in seen:
             seen.add(v["signature"])
             uniq.append(v)
-    return {"violations": uniq, "digest": core.digest([sc, trace]), "hdigest": core.digest(sc), "rdigest": core.digest(trace),
+    return {"violations": uniq, "digest": core.digest([sc, trace]), "hdigest": core.digest(sc), "rdigest": core.digest(_ws_free(trace)),
             "decisions": [], "nontrivial": nontrivial, "probes": probes, "faults": {}, "steps": len(trace), "sim_s": 0.0,
             "states": [core.digest(t) for t in trace[-2:]], "sched": core.digest(sc["calls"]),
             "summary": {"calls": sc["calls"], "input": sc["input"], "rows": len(sc["rows"])}}
